@@ -10,11 +10,11 @@ ROOT = os.path.dirname(os.path.dirname(os.path.abspath(__file__)))
 CLAIMED = {
     'C01': ('runtime monitoring: recorded query histories checked offline against an executable model (dictionary of stand-alone answers from twin worlds in other processes), on the ASan+UBSan build',
             'exploration: held on the histories actually executed (hundreds of worlds, tens of thousands of calls per run); every batched block, wrapper and repeated call is compared bit for bit with the stand-alone answer of a twin world; memory errors in the offset bookkeeping are caught by AddressSanitizer',
-            'trusts the stand-alone single-property 3D/2D call of a twin world as the model; histories are finite samples; at most three worlds alive per process',
+            'trusts the stand-alone single-property 3D/2D call of a twin world as the model; histories are finite samples biased to partial-key collisions (sibling points sharing a depth or a position, clamped shallow depths, layered water worlds); at most three worlds alive per process',
             'DESIGN.md section 4, C01'),
-    'C03': ('runtime monitoring: reference-model monitor (closed-form background state evaluated next to the real code) over generated worlds and points, on the ASan+UBSan build',
+    'C03': ('runtime monitoring: reference-model monitor (closed-form background state evaluated next to the real code) over generated worlds and points through the 3D and the 2D entry points, on the ASan+UBSan build',
             'exploration: held on the sampled worlds/points (thousands of points far outside every feature and every sampled point with tag -1, both coordinate systems, random global constants); forced surface temperature checked at depth 0 for every batching',
-            'the generator\'s truth record decides which points are far outside every feature; tolerance 1e-12 relative on the adiabat',
+            'the generator\'s truth record decides which points are far outside every feature (near the features the 3D tag -1 does); tolerance 1e-12 relative on the adiabat; a fault of the 2D mapping that keeps points outside every feature is invisible here (C09 sees it)',
             'DESIGN.md section 4, C03'),
     'C16': ('runtime monitoring: differential monitor - the same command stream through the native World, the C API and wrapper_cpp in one process, bit equality; file-system observation of create_world\'s output directory',
             'exploration: held on the executed call streams (corpus incl. random-model worlds and generated worlds, all create_world argument combinations sampled); output vectors are allocated with exactly the announced size so ASan catches a wrapper that writes more',
@@ -40,7 +40,7 @@ CLAIMED = {
             'exploration: held on ~3x10^4 interior points per quick run covering every listed model x feature type pair (listed in the evidence), both coordinate systems, sentinels and model ranges narrower/wider than the feature; 1e-12 relative (1e-9 for series and distance-encoded values)',
             'reference formulas are the checker\'s reading of the documentation (half-space/plate series, Chapman, Gaussian with r^2 = ellipse fraction, tanh profile of the smooth models); slab/fault linear sentinels and grains of unlisted compositions in line features are not judged',
             'DESIGN.md section 4, C05'),
-    'C11': ('runtime monitoring: invariant monitors on Objects::Surface called directly (listed value at nodes, nodal bounds, affine exactness) and world-level probes of area features whose min/max depth is given at points (uniform composition present/absent just above/below the expected depth), on the ASan+UBSan build',
+    'C11': ('runtime monitoring: invariant monitors on Objects::Surface called directly (listed value at nodes, nodal bounds, affine exactness) and world-level probes of area features and of their temperature / composition / velocity models whose min/max depth is given at points (the value painted by the owner of the surface present/absent just above/below the expected depth), on the ASan+UBSan build',
             'exploration: held on ~1.6x10^4 probes per quick run (hundreds of triangulations incl. collinear triples, spherical alias, corners with a zero coordinate, base-value and default corners)',
             'interior interpolated values are only bounded (the triangulation is left open by the property); 1e-10 relative for barycentric rounding; two input classes are known findings (approx(0,0), DBL_MAX default corners)',
             'DESIGN.md section 4, C11'),
@@ -56,8 +56,8 @@ CLAIMED = {
             'exploration: held on ~3.4x10^4 paired queries per quick run with generators biased to where the bounds are tight (deep starts, shallow/steep/overturned dips, short thick slabs, negative truncations, high latitudes, dateline, points around the buffered box and cut-off)',
             'the models\' own min/max pre-tests (about 40 copies) are not hooked; a difference is excused only if both worlds agree 1e-9 (relative) above and below the query depth and the two sides differ',
             'DESIGN.md section 4, C07'),
-    'C08': ('runtime monitoring: metamorphic monitor - a world and its rigidly moved copy (every coordinate-valued entry transformed, query moved with it) answered in one process; tolerance comparison with the margin rule (ASan+UBSan build)',
-            'exploration: held on ~1.8x10^4 paired queries per quick run (all feature and model types, curved trenches, sections, depth surfaces, ridges; any rotation/translation up to 1e7 m; longitude offsets moving footprints across the date line, incl. +-360)',
+    'C08': ('runtime monitoring: metamorphic monitor - a world and its rigidly moved copy (every coordinate-valued entry transformed, query moved with it; 3D entry point and, with the same section coordinates, the 2D entry point) answered in one process, tolerance comparison with the margin rule; plus a reference-model monitor of the ridge kernel called directly (independent statement of the construction in vlib/ridgeref.py) whose verdict also decides which differences belong to the known one-alias finding (ASan+UBSan build)',
+            'exploration: held on ~2.6x10^4 paired world queries and ~4.8x10^3 ridge kernel calls per quick run (all feature and model types, curved trenches, sections, depth surfaces, ridges incl. short oblique ones at the date line; any rotation/translation up to 1e7 m; longitude offsets moving footprints across the date line, incl. +-360)',
             'tolerances sit one order above the measured noise floor of the trench closest-point solver (relative 1e-8): 1e-6 K + 1e-7 relative, 1e-7 for compositions/grains; plume azimuth ties (exactly 180 degrees apart) are avoided; velocity is not compared',
             'DESIGN.md section 4, C08'),
     'C10': ('runtime monitoring: metamorphic monitor - families of files that place the same models at feature / section / segment level (bit-identical answers), and pairs of worlds differing in the section of one coordinate (bit-identical answers outside the neighbouring sections, convexity and attainment of section values), section of the trench foot taken from the library\'s own closest-point kernel (ASan+UBSan build)',
@@ -65,18 +65,18 @@ CLAIMED = {
             'interpolated quantities are observed through temperature, composition, thickness, length and top truncation; angles only indirectly; the 20 % margin around section boundaries is not judged',
             'DESIGN.md section 4, C10'),
     'C17': ('runtime monitoring: differential monitor at the process boundary - stdout of the sanitizer build of gwb-dat on generated data files parsed by header and compared column by column with the %g rendering of the library values obtained through the monitor process',
-            'exploration: held on ~3x10^3 printed rows per quick run (dim 2/3, 0-5 compositions, grain sets, convert spherical, separators, comment lines of every length, malformed rows) over corpus and generated worlds',
+            'exploration: held on ~3x10^3 printed rows per quick run (dim 2/3, 0-5 compositions, 0-4 grain compositions x 0-5 grains, convert spherical, separators, comment lines of every length, malformed rows) over corpus and generated worlds',
             'only what is printed (6 significant digits) is compared; two header/column defects pinned by golden logs are known findings recognised by their exact signature',
             'DESIGN.md section 4, C17'),
     'C18': ('runtime monitoring: reference-model monitor at the process boundary - the ASCII VTU files of the sanitizer build of gwb-grid parsed and compared with an independent mesh generator (node set, logical cells, depth), with library values through the monitor process, and with the tag rule for the filtered / by-tag files',
             'exploration: held on ~150 tool runs per quick run (cartesian/chunk 2D/3D, annulus, sphere; 1-40 cells per direction; several -j; --filtered/--by-tag), ~5x10^4 node comparisons',
-            'sphere meshes are checked structurally (shell radii, face sharing, volumes) rather than node by node; binary/compressed VTU formats are not parsed; the highest-tag rule of the filters is taken from the source',
+            'sphere meshes are checked structurally (shell radii, face sharing, volumes) rather than node by node; the binary VTU formats are decoded through their own headers and offsets and compared with the ASCII file; the highest-tag rule of the filters is taken from the source',
             'DESIGN.md section 4, C18'),
-    'C14': ('runtime monitoring with ThreadSanitizer: multi-threaded stress harness in the monitor process (2-32 threads behind a barrier, shared query pool) with every concurrent answer compared bitwise against the single threaded answer; gwb-grid under TSan/ASan for a range of -j with byte comparison of all VTU files; detector self-test on the known engine race of a random-model world',
-            'exploration: held on ~2x10^5 concurrent calls per quick run (up to 32 simultaneously open calls observed) over 30 worlds and 36 gwb-grid runs; ThreadSanitizer generalises the observed interleavings by happens-before',
-            'only interleavings that happened (plus TSan\'s happens-before closure) are covered; at most 32 threads and -j 40; worlds with random models are excluded by the property',
+    'C14': ('runtime monitoring with ThreadSanitizer: multi-threaded stress harness in the monitor process (2-32 threads behind a barrier, shared query pool) with every concurrent answer compared bitwise against the single threaded answer; gwb-grid under TSan/ASan for a range of -j (fixed list plus counts chosen relative to the node count of small grids: n-1, n, n+1, around n/2) with byte comparison of all VTU files; detector self-test on the known engine race of a random-model world',
+            'exploration: held on ~2x10^5 concurrent calls per quick run (up to 32 simultaneously open calls observed) over 30 worlds and ~90 gwb-grid runs; ThreadSanitizer generalises the observed interleavings by happens-before',
+            'only interleavings that happened (plus TSan\'s happens-before closure) are covered; at most 32 library threads and -j 128; worlds with random models are excluded by the property',
             'DESIGN.md section 4, C14'),
-    'C15': ('runtime monitoring: history + executable model - five instances of a random-model world (twin, other seed, seed entry) driven by the same interleaved history in one process, bit comparison call by call; invariant monitors on every returned grain set (proper rotation, size rules) and random composition (bounds), on the ASan+UBSan build',
+    'C15': ('runtime monitoring: history + executable model - five instances of a random-model world (twin, other seed, seed entry) driven by the same interleaved history (3D and 2D entry points, velocity blocks anywhere in the lists) in one process, bit comparison call by call; invariant monitors on every returned grain set (proper rotation, size rules) and random composition (bounds), on the ASan+UBSan build',
             'exploration: held on ~6x10^3 interleaved calls per quick run over 120 single-feature worlds of every feature type offering a random model (1-200 grains, deflected and plain distributions, both coordinate systems)',
             'statistical uniformity is not a property and not tested; seeds congruent modulo 2^32 are the same mt19937 seed and are not required to differ',
             'DESIGN.md section 4, C15'),
@@ -84,7 +84,7 @@ CLAIMED = {
             'exploration: held on ~2.7x10^4 queries per quick run (~2.3x10^4 on a degenerate locus: vertices, edges, depth bounds and their floating point neighbours, trench line, slab tip, poles, date line with both zero signs, planet centre, surface at/below min depth); thorough adds magnitudes up to 1e12',
             'a finite sample of a continuum targeted at the loci the code special-cases; a reproducible watchdog firing is the only notion of non-termination',
             'DESIGN.md section 4, C13'),
-    'C12': ('runtime monitoring with sanitizers: World construction (plus a fixed battery of queries) on the ASan+UBSan build for documents generated from the JSON schema the built library itself emits (adversarial list lengths and numbers), single-fault schema violations of valid files (cross-checked with python jsonschema), and formatting variants (bit-identical answers); thorough adds libFuzzer on raw bytes and a valgrind memcheck replay',
+    'C12': ('runtime monitoring with sanitizers: World construction (plus a fixed battery of queries) on the ASan+UBSan build for documents generated from the JSON schema the built library itself emits (adversarial list lengths and numbers), single-fault schema violations and unsupported option values of valid files (cross-checked with python jsonschema), and formatting variants (bit-identical answers); thorough adds libFuzzer on raw bytes and a valgrind memcheck replay',
             'exploration: held on ~1.5x10^3 schema-derived documents, ~600 mutated files and 100 formatting variants per quick run; every outcome is either "constructed" or std::exception with a message; crashes, sanitizer reports and hangs are routed through the crash matcher',
             '"all byte strings" is sampled; "never hangs" is a 30 s progress watchdog confirmed in isolation; sibling-list length checks are only demanded of models that are certainly instantiated',
             'DESIGN.md section 4, C12'),
